@@ -1,4 +1,4 @@
-\* self-test of the properties: with SuccessionChecked = FALSE TLC must report a violation
+\* self-test of the properties: with RootCheckedOnEmptyDiff = FALSE (new-root check skipped for blocks without diff entries) TLC must report a violation
 CONSTANTS
   Versions <- MCVersions
   Committed <- MCCommitted
@@ -11,9 +11,9 @@ CONSTANTS
   EmptyDiffShapes <- MCEmptyDiffShapes
   ClassShapes <- MCClassShapes
   MaxPending = 2
-  SuccessionChecked = FALSE
+  SuccessionChecked = TRUE
   RootChecked = TRUE
-  RootCheckedOnEmptyDiff = TRUE
+  RootCheckedOnEmptyDiff = FALSE
   TxHashesChecked = TRUE
   WriteBeforeChecks = FALSE
 INIT Init
